@@ -167,7 +167,11 @@ def v_tma(c):
     import xarray as xr
     from wavespectra.construct.frequency import jonswap
 
-    n, freq, fget = _freq_axis(c, 4)
+    n = c.rng.randint(6, 14)
+    # physical frequency range: at 5000 m depth every bin is in deep water (k h >> 1), which is
+    # what "TMA in deep water equals JONSWAP" presupposes
+    fv = 0.035 * c.rng.choice([1.08, 1.1, 1.15]) ** np.arange(n)
+    freq = xr.DataArray(fv, dims=("freq",), coords={"freq": fv}, name="freq")
     fp = float(freq.values[c.rng.randrange(1, n - 1)])
     h = c.real("h", 0.1, 10)
     sa, sb = c.rng.choice([(0.07, 0.09), (0.05, 0.12), (0.1, 0.1)])
